@@ -121,16 +121,34 @@ def run(shard, ctx):
             form = rng.choice(["dict", "kwargs", "opcode"])
             if form == "kwargs" and not init:
                 form = "dict"
+            src = dict(init)  # the caller's own dictionary: theirs to reuse once the enumeration is built
             try:
                 if form == "dict":
-                    E = Enum(dict(init))
+                    E = Enum(src)
                 elif form == "kwargs":
                     E = Enum(**init)
                 else:
-                    E = OpCode("X", i, dict(init)).serviceaction
+                    op = OpCode("X", i, src)
+                    if rng.random() < 0.5:
+                        E = op.serviceaction
+                        op = None
             except Exception as e:  # noqa: BLE001
                 ctx.fail("C18:construct_raises.%s" % form, "Enum(%r) raised %s" % (init, type(e).__name__), {"init": init, "form": form}, exc=e)
                 continue
+            if rng.random() < 0.5:
+                # the caller refills its scratch dictionary for the next enumeration
+                how = rng.choice(["clear", "add", "change", "delete"])
+                if how == "clear":
+                    src.clear()
+                elif how == "add":
+                    src[rng.choice(names) + "_later"] = 77
+                elif how == "change" and src:
+                    src[rng.choice(list(src))] = "changed later"
+                elif src:
+                    del src[rng.choice(list(src))]
+                ctx.count("source_dictionaries_reused")
+            if form == "opcode" and op is not None:
+                E = op.serviceaction  # first looked at only now
             enums.append((E, dict(init), form))
             log.append(("new", form, {k: kind_name(v) for k, v in init.items()}))
         wit = {"history": log}
